@@ -428,6 +428,21 @@ struct G
         sc.clocks.push_back("gx0");
         add(var("chan ch0;", "ch0"));
         sc.chans.push_back("ch0");
+        if (rng.chance(0.25)) {
+            // "lvl" is a type in some documents (or templates) and a variable in others
+            lvl_used = true;
+            if (rng.chance(0.4)) {
+                MDecl d;
+                d.kind = MDecl::TYPEDEF;
+                d.text = "typedef int[0,3] lvl;";
+                d.name = "lvl";
+                add(d);
+            } else {
+                add(var("int lvl;", "lvl"));
+                sc.ints.push_back("lvl");
+                lvl_is_var = true;
+            }
+        }
         if (cfg.quantifiers && rng.chance(0.6)) {
             MDecl d;
             d.kind = MDecl::TYPEDEF;
@@ -794,6 +809,16 @@ struct G
             }
             }
         }
+        if (lvl_is_var && ti == 0 && rng.chance(0.4)) {
+            // the first template hides the global variable "lvl" behind a local type of that name; later templates
+            // still mean the variable
+            MDecl d;
+            d.kind = MDecl::TYPEDEF;
+            d.text = "typedef int[0,3] lvl;";
+            d.name = "lvl";
+            t.decls.push_back(d);
+            sc.ints.erase(std::remove(sc.ints.begin(), sc.ints.end(), "lvl"), sc.ints.end());
+        }
         // locations
         const int name_style = rng.chance(0.5) ? 0 : (int)rng.below(8);
         int nlocs = rng.range(1, std::max(1, cfg.max_locs));
@@ -915,6 +940,7 @@ struct G
     }
 
     bool lvl_used{false};
+    bool lvl_is_var{false};
     int chains_made{0};
     void gen_system(Model& m, const Scope& gsc)
     {
